@@ -95,6 +95,16 @@ def scenarios(rng: random.Random, tier: str):
                     k = unanswered.pop(rng.randrange(len(unanswered))) if rng.random() < 0.8 else rng.randrange(0, nreq)
                     evs.append(f"ans 0 {k} 2001")
             out.append(pre + " | " + " | ".join(evs))
+    # failover (RFC 6733 5.5.4): answered on one connection, the connection is lost, the origin comes back on a new
+    # connection and repeats the request with the T flag (and sends one it never sent before)
+    for rq in (1, 2, 4):
+        for loss in ("eof 0", "rerr 0 hard", "rx 0 " + nodegen.dpr(n(), n(), "peer1.x") + " | eof 0"):
+            pre = cfg_line(rq) + " | start | acc | rx 0 " + nodegen.cer("peer1.x", "4", n(), n())
+            evs = ["rx 0 " + nodegen.ccr(n(), 7200, "peer1.x"), "ans 0 0 2001", loss, "acc",
+                   "rx 1 " + nodegen.cer("peer1.x", "4", n(), n()),
+                   "rx 1 " + nodegen.ccr(n(), 7200, "peer1.x", flags=208), "rx 1 " + nodegen.ccr(n(), 7201, "peer1.x", flags=208),
+                   "ans 0 1 2001", "rx 1 " + nodegen.ccr(n(), 7201, "peer1.x", flags=208)]
+            out.insert(0, pre + " | " + " | ".join(evs))
     # the same id answered twice (repeat without T), window just full, then a T-flagged repeat
     for rq in (2, 3, 4):
         pre = (cfg_line(rq) + " | start | acc | rx 0 " + nodegen.cer("peer1.x", "4", n(), n()))
